@@ -502,7 +502,12 @@ class Decimal:
         return SymStr([_Formatted(self, spec)])
 
     def __str__(self):
-        return self.__format__("")
+        if self.is_concrete:
+            return self.__format__("")
+        # the text of a symbolic number: Decimal(str(x)) gives x back (rp2 converts through str in a few places)
+        from .vf_time import SymNumStr  # pylint: disable=import-outside-toplevel
+
+        return SymNumStr(self)
 
     def __repr__(self):
         if self.is_concrete:
